@@ -120,6 +120,37 @@ func checkC11(w *Workload, emit func(n int, region string)) (*Outcome, int) {
 			emit(n, region)
 		}
 	}
+	// the same source object reused (bytes.Reader.Reset, a pooled reader): the complete file is opened through it first, then a
+	// truncated one - anything the library remembers about a source it has seen must not outlive the bytes behind it
+	shared := bytes.NewReader(file)
+	step := 1
+	if len(file)-footerOff > 256 {
+		step = (len(file) - footerOff) / 128
+	}
+	for n := len(file) - 1; n >= 0; n -= step {
+		if n < footerOff-8 {
+			step = 11
+		}
+		prefix := file[:n]
+		o := guard("C11", func() *Outcome {
+			shared.Reset(file)
+			if _, _, rd, err := readAll(f, shared, 1<<20); err != nil || rd.Error() != nil {
+				return viol("C11/baseline", "the complete file is rejected when opened through a reused reader")
+			}
+			shared.Reset(prefix)
+			recs, _, rd, err := readAll(f, shared, 1<<20)
+			if err != nil || rd.Error() != nil {
+				return nil
+			}
+			if _, perr := pqref.ParseFile(prefix, pqref.Options{AllowGaps: true}); perr == nil {
+				return nil
+			}
+			return viol("C11/accepted", "[same *bytes.Reader reused after reading the complete file] prefix of %d bytes (of %d) was accepted: no error from the constructor or Error(), %d rows delivered", len(prefix), len(file), len(recs))
+		})
+		if o != nil {
+			return o, exempt
+		}
+	}
 	return nil, exempt
 }
 
